@@ -34,7 +34,7 @@ MANIFEST = {
             '__int128, exception table).',
     'design_ref': 'DESIGN.md section 7 C14, section 6 F8',
     'note': 'Model and full theorems follow the repaired code (fixes/C14-1..6). Open classes: exp-field-range, '
-            'frac-leading-zeros-19. Trusted: Lean kernel, translator, correspondence on sampled cases, Rat+rnd model of IEEE.',
+            'frac-leading-zeros-19, near-max-overflow (the last 4 tol below the largest normal value). Trusted: Lean kernel, translator, correspondence on sampled cases, Rat+rnd model of IEEE.',
     'technique': 'Lean 4 proof (loop = takeWhile/foldl specification lemmas) + source-to-Lean translator + differential '
                  'correspondence + reference oracle',
 }
